@@ -367,6 +367,56 @@ pub fn gen_large_gcase(c: &mut Case) -> GCase {
     }
 }
 
+/// call sequences on ONE thread: a large table, then N tiny tables (N around 2^8 and 2^16), then a
+/// larger table. Per-call state that survives between calls (generation counters, reused marks or
+/// scratch buffers) shows up as lost / duplicated k-mers in the last call.
+fn c01_call_sequence(c: &mut Case) -> Result<(), String> {
+    type K = Kmer16;
+    let k = 16;
+    let stranded = c.rng.chance(1, 2);
+    let n_mid = *c.rng.pick(&[254usize, 255, 256, 257, 65_534, 65_535, 65_536, 65_537, 70_000]);
+    let spec = SpySpec::new(false);
+    let gc = GCase { kidx: 8, stranded, thr: 1, reads: vec![], by_colour: false, ncol: 2, salt: c.rng.next() };
+    let mut run_big = |c: &mut Case, len: usize, entry: usize| -> Result<(), String> {
+        let read = c.rng.bases(len, 4);
+        let t = build_table(&whole_reads(&[read]), k, stranded);
+        let tab = retained_table(&gc, &t);
+        let pruned = with_masks(&tab, &prune_table(&masks(&tab), stranded));
+        spec.reset();
+        let nodes = match entry {
+            0 => views(&compress_kmers(stranded, &spec, &lib_rows::<K>(&pruned))),
+            1 => {
+                let rows = lib_rows::<K>(&pruned);
+                let index = BoomHashMap2::new(rows.iter().map(|r| r.0).collect(), rows.iter().map(|r| (r.1).0).collect(), rows.iter().map(|r| (r.1).1.clone()).collect());
+                views(&compress_kmers_with_hash(stranded, &spec, &index))
+            }
+            _ => {
+                let kd: Vec<(K, Pay)> = lib_rows::<K>(&pruned).into_iter().map(|(k, (_, d))| (k, d)).collect();
+                views(&compress_kmers_no_exts(stranded, &spec, &kd))
+            }
+        };
+        check_lossless(&nodes, &pruned, k, stranded, entry == 2, Some(spec.log.borrow().reduces)).map(|_| ())
+    };
+    let entry = c.rng.below(3);
+    let l1 = c.rng.range(1500, 4000);
+    run_big(c, l1, entry).map_err(|e| format!("first large table ({} bases): {}", l1, e))?;
+    for _ in 0..n_mid {
+        // tiny tables: one isolated k-mer, or two adjacent ones
+        let read = c.rng.bases(k + c.rng.below(2), 4);
+        let t = build_table(&whole_reads(&[read]), k, stranded);
+        let tab = retained_table(&gc, &t);
+        let rows = lib_rows::<K>(&tab);
+        let bg = compress_kmers(stranded, &spec, &rows);
+        ensure!(bg.len() >= 1, "tiny table compressed to an empty graph");
+    }
+    let l2 = l1 + c.rng.range(500, 3000);
+    run_big(c, l2, entry).map_err(|e| format!("large table ({} bases) after a {}-base table and {} tiny tables on the same thread: {}", l2, l1, n_mid, e))?;
+    c.count("call_sequences", 1);
+    c.count("call_sequences_with_65535_or_more_intermediate_calls", (n_mid >= 65_535) as u64);
+    c.nontrivial(H::new().u(n_mid as u64).u(l1 as u64).u(l2 as u64).get());
+    Ok(())
+}
+
 pub fn run_c01(ctx: &Ctx) {
     // > 65 536 compress calls per worker thread in the quick tier (state carried from call to call)
     let n = ctx.n(300_000, 6_000_000);
@@ -381,6 +431,11 @@ pub fn run_c01(ctx: &Ctx) {
             c.count("large_cases", 1);
             with_graph_k!(gc.kidx, K => compress_case::<K>(c, &gc, Which::Lossless))
         });
+    }
+    if !ctx.is_miri() && ctx.lane != "asan" {
+        ctx.set_case_timeout(300);
+        ctx.run_group("call_sequences", ctx.n(48, 600), false, |c| c01_call_sequence(c));
+        ctx.require("call_sequences_with_65535_or_more_intermediate_calls", 10);
     }
     if !ctx.is_miri() {
         ctx.require("merged_nodes", 100);
